@@ -42,7 +42,7 @@ def spec_undollar(text):
           a = starts[tok.start[0] - 1] + tok.start[1]
           b = starts[tok.end[0] - 1] + tok.end[1]
           inside.append((a, b))
-    except (tokenize.TokenError, SyntaxError, IndentationError):
+    except (tokenize.TokenError, SyntaxError, ValueError):     # incl. UnicodeDecodeError from the C tokenizer
       return nodollar, cand         # not tokenizable as it stands (the parser decides later): every `$name` counts
     bad = [d for d in cand if any(a <= newpos[d] < b for a, b in inside)]
     if not bad:
